@@ -372,6 +372,29 @@ func (v *visitor) FunctionNode(node *ast.FunctionNode) reflect.Type {
 	return v.error(node, "unknown func %v", node.Name)
 }
 
+// hasOverloadedOperator reports whether node, seen through the operators that literal
+// retyping descends through, contains a binary operator that resolves to an overload.
+func (v *visitor) hasOverloadedOperator(node ast.Node) bool {
+	switch n := node.(type) {
+	case *ast.UnaryNode:
+		switch n.Operator {
+		case "+", "-":
+			return v.hasOverloadedOperator(n.Node)
+		}
+	case *ast.BinaryNode:
+		switch n.Operator {
+		case "+", "/", "-", "*":
+			if fns, ok := v.operators[n.Operator]; ok {
+				if _, _, ok := conf.FindSuitableOperatorOverload(fns, v.types, n.Left.Type(), n.Right.Type()); ok {
+					return true
+				}
+			}
+			return v.hasOverloadedOperator(n.Left) || v.hasOverloadedOperator(n.Right)
+		}
+	}
+	return false
+}
+
 func (v *visitor) MethodNode(node *ast.MethodNode) reflect.Type {
 	t := v.visit(node.Node)
 	if f, method, ok := methodType(t, node.Method); ok {
@@ -445,8 +468,10 @@ func (v *visitor) checkFunc(fn reflect.Type, method bool, node ast.Node, name st
 			in = fn.In(i + offset)
 		}
 
-		if isIntegerOrArithmeticOperation(arg) && isNumber(in) {
-			// Integer literals take the parameter's type only if it is numeric.
+		if isIntegerOrArithmeticOperation(arg) && isNumber(in) && !v.hasOverloadedOperator(arg) {
+			// Integer literals take the parameter's type only if it is numeric, and only if
+			// no operator on the way is overloaded: the overload was chosen for the operand
+			// types as written, and retyping a literal would un-choose it.
 			t = in
 			setTypeForIntegers(arg, t)
 		}
